@@ -126,6 +126,26 @@ def fixed_case(rng, base, idx):
         cons = [{'current': '2022-01-12 12:00:00', 'days': 0, 'hours': 24}]
         policy = rng.choice(['ignore', 'replace', 'backslashreplace'])
         cls, glob = 'invalid-bytes-on-first-in-window-line', 0
+    elif idx == 4:
+        # EVERY search carries its own since constraint and an OLD line
+        # (read while no search is enabled yet) is not valid UTF-8: under
+        # strict decoding the run must still raise
+        t0 = G.datetime(2022, 1, 10, 0, 0, 0)
+        ls = [(t0 + G.timedelta(hours=i)).strftime(G.TS_FMT).encode()
+              + b' alpha %d\n' % i for i in range(48)]
+        ls[3] = ls[3][:24] + b'\xff' + ls[3][24:]
+        data = b''.join(ls)
+        cons = [{'current': '2022-01-12 12:00:00', 'days': 0, 'hours': 24}]
+        cdef = dict(sdef, constraints=[0])
+        skrun.materialise(d, {'x.log': data})
+        run = {'global': None, 'decode_errors': None,
+               'max_parallel_tasks': 4, 'adds': [[0, 'x.log', True]],
+               'new_searcher': True}
+        recipe = {'dir': d, 'constraints': cons, 'defs': [cdef],
+                  'runs': [run]}
+        return recipe, {'class': 'invalid-old-line-all-searches-constrained',
+                        'data': data, 'policy': None, 'wide': False,
+                        'global': False, 'nfiles': 1}
     elif idx == 3:
         # invalid bytes in one of TWO files under a lenient policy (the
         # worker path must honour the policy like the in-process path)
@@ -156,7 +176,7 @@ def fixed_case(rng, base, idx):
 
 
 def make_case(rng, base, idx, big):
-    if idx in (1, 2, 3):
+    if idx in (1, 2, 3, 4):
         return fixed_case(rng, base, idx)
     data, cls = hostile(rng, big)
     if data[:2] == b'\x1f\x8b':
